@@ -79,6 +79,16 @@ def run(ctx):
                       "script": [{"op": "adopt", "p": "c1"}, {"op": "adopt", "p": "t1"}, {"op": "accept"}, {"op": "wait_running"}, {"op": "wait_start", "p": "c1"}, {"op": "wait_start", "p": "t1"},
                                  {"op": "execute", "p": "x1p", "how": "val:x", "slow": 1.6, "wait": False}, {"op": "adopt", "p": "late", "ctx": "payload:c1"}, {"op": "adopt", "p": "late2", "ctx": "payload:t1"},
                                  {"op": "step", "p": "c1"}, {"op": "step", "p": "t1"}, {"op": "sleep", "ms": 1500}, {"op": "polls", "n": 2}], "shape": "targeted-slow-execute"})
+    # accept() of further runtimes is refused while this one runs - twice in a row - and the
+    # services created afterwards all live in THIS runtime's loops (a second live runtime would
+    # take some of them into its own loops and threads)
+    svcs = {"s%d" % i: {"flavour": "asyncio" if i % 2 else "trio"} for i in range(1, 7)}
+    extra.append({"seed": ctx.seed, "jitter": 0.0, "payloads": {"c1": {"flavour": "asyncio"}, "t1": {"flavour": "trio"}}, "services": svcs,
+                  "script": [{"op": "adopt", "p": "c1"}, {"op": "adopt", "p": "t1"}, {"op": "accept"}, {"op": "wait_running"}, {"op": "wait_start", "p": "c1"}, {"op": "wait_start", "p": "t1"},
+                             {"op": "second_accept", "timeout": 0.4}, {"op": "second_accept", "timeout": 0.4}]
+                  + [{"op": "new_service", "s": s, "ctx": "driver"} for s in sorted(svcs)] + [{"op": "wait_start", "p": s} for s in sorted(svcs)]
+                  + [{"op": "seg", "p": "s1", "hold": 0.002}, {"op": "seg", "p": "s3", "hold": 0.002}, {"op": "seg", "p": "c1", "hold": 0.002}, {"op": "step", "p": "s2"}, {"op": "step", "p": "t1"}, {"op": "polls", "n": 2}, {"op": "shutdown2"}],
+                  "shape": "targeted-refused-accepts-then-services", "timeout": 14.0, "accept_delay": 1.0})
     # many thread payloads block at once, all adopted from inside a coroutine payload
     many = {"h%02d" % i: {"flavour": "threading"} for i in range(1, 37)}
     for f in ("asyncio", "trio"):
